@@ -16,6 +16,7 @@ import (
 	"fmt"
 	"math/rand"
 	"os"
+	"sort"
 	"strings"
 	"time"
 
@@ -93,6 +94,7 @@ const (
 type cause struct {
 	Event int
 	Tag   string
+	Rel   string // for a drop: was the dropped assignment's epoch / period the current one at that moment, or still upcoming
 }
 
 type pendingReorg struct {
@@ -499,7 +501,7 @@ func (rn *run) barrier(h *hctl) bool {
 
 func (rn *run) addCause(h *hctl, tag string) { // w.mu not held
 	rn.w.mu.Lock()
-	h.causes = append(h.causes, cause{rn.w.curEvent, tag})
+	h.causes = append(h.causes, cause{Event: rn.w.curEvent, Tag: tag})
 	rn.w.mu.Unlock()
 }
 
@@ -533,20 +535,42 @@ func (rn *run) probe(h *hctl, tag string) { // w.mu held
 			rn.held[F] = all
 		} else if was && !all {
 			rn.held[F] = false
-			rn.dropped[F] = cause{w.curEvent, tag}
+			rel := "while-current"
+			if cur := rn.xOf(h.r, rn.net.now.Load()); x > cur {
+				rel = "while-upcoming"
+			} else if x < cur {
+				rel = "while-past"
+			}
+			rn.dropped[F] = cause{w.curEvent, tag, rel}
 		}
 	}
 }
 
-// lastNotice: the last notice delivered to h up to (and including) event ev, after event from.
-func lastNotice(h *hctl, from, ev int) string {
-	n := "nothing"
+// noticesBefore: the distinct kinds of notices delivered to h between its previous tick and the tick of event ev (what the
+// handler's per-tick flags can still remember), sorted and joined by "+".
+func noticesBefore(h *hctl, ev int) string {
+	set := map[string]bool{}
 	for _, c := range h.causes {
-		if c.Event > from && c.Event <= ev && c.Tag != "fetch-fail" && c.Tag != "late-tick" {
-			n = c.Tag
+		if c.Event >= ev {
+			break
+		}
+		switch c.Tag {
+		case "tick", "late-tick":
+			set = map[string]bool{}
+		case "fetch-fail":
+		default:
+			set[c.Tag] = true
 		}
 	}
-	return n
+	if len(set) == 0 {
+		return "nothing"
+	}
+	var ks []string
+	for k := range set {
+		ks = append(ks, k)
+	}
+	sort.Strings(ks)
+	return strings.Join(ks, "+")
 }
 
 // whyMissed names, for the signature, the event that made the store drop fetch F and whether a re-fetch failed since.
@@ -575,12 +599,14 @@ func (rn *run) whyMissed(h *hctl, F *fetchRec) string { // w.mu held
 	}
 	tag := d.Tag
 	if tag == "tick" {
-		tag = "tick-after-" + lastNotice(h, F.Event, d.Event)
+		tag = "tick-after-" + noticesBefore(h, d.Event)
 		if within {
 			tag = "this-" + tag
 		}
+	} else if tag == "late-tick" {
+		tag = "late-tick-after-" + noticesBefore(h, d.Event)
 	}
-	return "dropped-at-" + tag + refetch
+	return "dropped-" + d.Rel + "-at-" + tag + refetch
 }
 
 func (rn *run) deliverTick(h *hctl, s uint64) {
@@ -605,6 +631,8 @@ func (rn *run) deliverTick(h *hctl, s uint64) {
 	rn.begin(evTick, h.r, s, onTime, line)
 	if !onTime {
 		rn.addCause(h, "late-tick")
+	} else {
+		rn.addCause(h, "tick")
 	}
 	h.lastTick = int64(now)
 	h.tk.slot.Store(s)
@@ -624,7 +652,7 @@ func (rn *run) deliverTick(h *hctl, s uint64) {
 		rn.probe(h, "late-tick")
 	}
 	if w.nFetchFail[h.r] > failBefore {
-		h.causes = append(h.causes, cause{w.curEvent, "fetch-fail"})
+		h.causes = append(h.causes, cause{Event: w.curEvent, Tag: "fetch-fail"})
 		rn.anomalies++
 	}
 	if !onTime {
